@@ -42,13 +42,13 @@ ES = (3, 17, 65537)
 
 def plan(tier, seed):
     q = tier == "quick"
-    B = 30 if q else 260
+    B = 32 if q else 260
     specs = []
     bits = list(range(1024, 1032))
     if q:
         groups = [[(1024, 65537), (1025, 3)], [(1026, 17), (1027, 65537), (1028, 3)], [(1029, 17), (1030, 65537), (1031, 3)]]
         rot = seed % 3
-        for i, g in enumerate(groups):
+        for i, g in enumerate([groups[0] + groups[1][:2], groups[1][2:] + groups[2]]):
             specs.append({"kind": "rsa15", "idx": i, "keys": [(b, ES[(ES.index(e) + rot) % 3]) for b, e in g], "budget_s": B})
         for i, g in enumerate(groups):
             specs.append({"kind": "pss", "idx": i, "keys": [(b, ES[(ES.index(e) + rot + 1) % 3]) for b, e in g], "budget_s": B})
@@ -57,8 +57,9 @@ def plan(tier, seed):
         for i, c in enumerate([["P-192", "P-224"], ["P-256"], ["P-384"], ["P-521"]]):
             specs.append({"kind": "ecdsa", "idx": i, "curves": c, "budget_s": B})
         specs.append({"kind": "ecdsa_constructed", "idx": 0, "curves": CURVES, "budget_s": B})
-        specs.append({"kind": "eddsa", "idx": 0, "schemes": ["ed25519", "ed25519ctx", "ed25519ph"], "budget_s": B})
-        specs.append({"kind": "eddsa", "idx": 1, "schemes": ["ed448", "ed448ph"], "budget_s": B})
+        specs.append({"kind": "eddsa", "idx": 0, "schemes": ["ed25519", "ed25519ctx"], "budget_s": B})
+        specs.append({"kind": "eddsa", "idx": 1, "schemes": ["ed25519ph", "ed448ph"], "budget_s": B})
+        specs.append({"kind": "eddsa", "idx": 2, "schemes": ["ed448"], "budget_s": B})
         specs.append({"kind": "ed_edge", "idx": 0, "curves": ["Ed25519"]})
         specs.append({"kind": "ed_edge", "idx": 1, "curves": ["Ed448"]})
         specs.append({"kind": "shortkey", "idx": 0})
@@ -123,6 +124,7 @@ def finalize(agg, tier):
         need("cand:ecdsa-%s:constructed-xR-ge-n" % m)
         need("cand:ecdsa-%s:constructed-generic" % m)
         need("cand:ecdsa-%s:constructed:r+q" % m)
+        need("cand:ecdsa-%s:R=infinity" % m)
         for cv in CURVES:
             for e in ("binary", "der"):
                 need("signed:ecdsa-%s:%s:%s" % (m, cv, e))
